@@ -125,6 +125,25 @@ def fresh(kind, name):
     return Val(kind, terms)
 
 
+def set_empty(kind):
+    sorts = flat(kind.elem)
+    arr = z3.K(sorts[-1], FALSE) if len(sorts) == 1 else None
+    if arr is None:
+        vs = [z3.Const(uid("se"), srt) for srt in sorts]
+        arr = z3.Lambda(vs, FALSE)
+    return Val(kind, [arr])
+
+
+def set_contains(sv, x):
+    x, _ = coerce(x, sv.kind.elem)
+    return z3.Select(sv.terms[0], *x.terms)
+
+
+def set_add(sv, x):
+    x, sc = coerce(x, sv.kind.elem)
+    return Val(sv.kind, [z3.Store(sv.terms[0], *(list(x.terms) + [TRUE]))]), sc
+
+
 def basic_facts(v):
     """facts true of every value of the kind: lengths and dimensions are non-negative (stated whenever a value is
     introduced as a fresh symbol: inputs, havoc at a loop cut, results of contracted calls)"""
@@ -212,6 +231,10 @@ def coerce(v, kind):
         return Val(REAL, [x]), not_(nan)
     if isinstance(kind, KInt) and isinstance(v.kind, KBool):
         return vint(to_int(v)), TRUE
+    if isinstance(v.kind, KOpt) and not isinstance(kind, KOpt):
+        # an optional value used where a value is required: fine exactly when it is not None (side condition)
+        inner, sc = coerce(opt_get(v), kind)
+        return inner, and_(not_(v.terms[0]), sc)
     if isinstance(kind, KAny):
         if isinstance(v.kind, (KInt, KBool)):
             return Val(kind, [ANY_OF_INT(to_int(v))]), TRUE
